@@ -151,5 +151,84 @@ main(int argc, char **argv)
                                         munmap(maps[p], (size_t) pg * 3);
                         }
         }
+        /* ---- QUIC AEAD: imb_quic_aes_gcm / imb_quic_chacha20_poly1305, every buffer of every packet against a guard ---- */
+        static struct gcm_key_data gk;
+
+        for (int alg = 0; alg < 3; alg++) {       /* 0 AES-128-GCM, 1 AES-256-GCM, 2 ChaCha20-Poly1305 */
+                if (alg == 0)
+                        IMB_AES128_GCM_PRE(mgr, key, &gk);
+                else if (alg == 1)
+                        IMB_AES256_GCM_PRE(mgr, key, &gk);
+                for (int place = 0; place < 2; place++)
+                        for (int np = 1; np <= 18; np++) {
+                                const void *src[18], *iv[18], *aad[18];
+                                void *dst[18], *tag[18];
+                                uint64_t len[18];
+                                uint8_t *g[18][5], *base[18][5], refct[18][80], reftag[18][16];
+                                const uint64_t aad_len = 13, tag_len = 16;
+                                const char *res = "ok";
+                                char buf[64];
+
+                                for (int p = 0; p < np; p++) {
+                                        static const unsigned lens[] = { 0, 1, 15, 16, 17, 31, 32, 33, 47, 48, 49, 63, 64, 65, 70, 5, 20, 40 };
+                                        uint8_t rs[80], rd[80], riv[16], raad[16], rtag[16];
+                                        const void *s1[1] = { rs }, *i1[1] = { riv }, *a1[1] = { raad };
+                                        void *d1[1] = { rd }, *t1[1] = { rtag };
+                                        uint64_t l1[1];
+
+                                        len[p] = lens[(p + np) % 18];
+                                        l1[0] = len[p];
+                                        const size_t sz[5] = { len[p] ? len[p] : 1, len[p] ? len[p] : 1, 12, aad_len, tag_len };
+                                        uint8_t *b[5];
+
+                                        for (int q = 0; q < 5; q++) {
+                                                b[q] = guarded(sz[q], place == 0, &g[p][q]);
+                                                base[p][q] = (uint8_t *) ((uintptr_t) b[q] & ~(uintptr_t) (pg - 1)) - pg;
+                                                if (place == 0 && q < 2 && len[p] == 0)
+                                                        b[q] += 1;      /* empty packet: pointer at the very end */
+                                        }
+                                        for (unsigned j = 0; j < len[p]; j++)
+                                                b[0][j] = rs[j] = (uint8_t) (np * 17 + p * 5 + j * 3 + alg);
+                                        for (int j = 0; j < 12; j++)
+                                                b[2][j] = riv[j] = (uint8_t) (p * 9 + j + np);
+                                        for (unsigned j = 0; j < aad_len; j++)
+                                                b[3][j] = raad[j] = (uint8_t) (p + j * 7 + 1);
+                                        src[p] = b[0]; dst[p] = b[1]; iv[p] = b[2]; aad[p] = b[3]; tag[p] = b[4];
+                                        if (alg == 2)
+                                                imb_quic_chacha20_poly1305(mgr, key, IMB_DIR_ENCRYPT, d1, s1, l1, i1, a1, aad_len, t1, 1);
+                                        else
+                                                imb_quic_aes_gcm(mgr, &gk, alg == 0 ? IMB_KEY_128_BYTES : IMB_KEY_256_BYTES, IMB_DIR_ENCRYPT, d1,
+                                                                 s1, l1, i1, a1, aad_len, t1, tag_len, 1);
+                                        memcpy(refct[p], rd, len[p]);
+                                        memcpy(reftag[p], rtag, 16);
+                                }
+                                if (sigsetjmp(jb, 1) == 0) {
+                                        if (alg == 2)
+                                                imb_quic_chacha20_poly1305(mgr, key, IMB_DIR_ENCRYPT, dst, src, len, iv, aad, aad_len, tag,
+                                                                           (uint64_t) np);
+                                        else
+                                                imb_quic_aes_gcm(mgr, &gk, alg == 0 ? IMB_KEY_128_BYTES : IMB_KEY_256_BYTES, IMB_DIR_ENCRYPT,
+                                                                 dst, src, len, iv, aad, aad_len, tag, tag_len, (uint64_t) np);
+                                        for (int p = 0; p < np; p++)
+                                                if (memcmp(dst[p], refct[p], len[p]) != 0 || memcmp(tag[p], reftag[p], 16) != 0)
+                                                        res = "diff";
+                                } else {
+                                        static const char *const nm[5] = { "src", "dst", "iv", "aad", "tag" };
+                                        const char *what = "other";
+
+                                        for (int p = 0; p < np; p++)
+                                                for (int q = 0; q < 5; q++)
+                                                        if (fault_addr >= (uintptr_t) g[p][q] && fault_addr < (uintptr_t) g[p][q] + (uintptr_t) pg)
+                                                                what = nm[q];
+                                        snprintf(buf, sizeof(buf), "fault@%s", what);
+                                        res = buf;
+                                }
+                                printf("Q var=%s alg=%s np=%d place=%s res=%s\n", var,
+                                       alg == 0 ? "quic-gcm128" : alg == 1 ? "quic-gcm256" : "quic-chachapoly", np, place == 0 ? "end" : "start", res);
+                                for (int p = 0; p < np; p++)
+                                        for (int q = 0; q < 5; q++)
+                                                munmap(base[p][q], (size_t) pg * 3);
+                        }
+        }
         return 0;
 }
